@@ -24,15 +24,17 @@ Check(r, idx) ==
         callSeq(j) == LET c == {x \in DOMAIN ev : ev[x].t = "call" /\ ev[x].c = ev[j].c /\ ev[x].seq < ev[j].seq}
                       IN IF c = {} THEN 0 ELSE ev[CHOOSE x \in c : \A y \in c : ev[y].seq <= ev[x].seq].seq
         writes(k) == {j \in rets : ev[j].k = k /\ ev[j].act = "write"}
-        removes(k) == {j \in rets : ev[j].k = k /\ ev[j].act = "inv"}
+        clrs == {j \in DOMAIN ev : ev[j].t = "ret" /\ ev[j].op = "clr"}       \* a Clear removes every key
+        removes(k) == {j \in rets : ev[j].k = k /\ ev[j].act = "inv"} \cup clrs
         \* removals still pending at the end of the log are calls without a return: treat any such call as overlapping
-        openCalls(k) == {x \in DOMAIN ev : ev[x].t = "call" /\ ev[x].op = "cmp" /\ ev[x].k = k
+        openCalls(k) == {x \in DOMAIN ev : ev[x].t = "call" /\ ((ev[x].op = "cmp" /\ ev[x].k = k) \/ ev[x].op = "clr")
                                           /\ ~\E y \in DOMAIN ev : ev[y].t = "ret" /\ ev[y].c = ev[x].c /\ ev[y].seq > ev[x].seq}
         stable(k, S, E) == \E w \in writes(k) :
                               /\ ev[w].seq < S
                               /\ \A d \in removes(k) : ev[d].seq < callSeq(w) \/ callSeq(d) > E
                               /\ openCalls(k) = {}
-        goneBefore(k, v, S) == \E j \in rets : ev[j].k = k /\ ev[j].saw = v /\ ev[j].act \in {"write", "inv"} /\ ev[j].seq < S
+        goneBefore(k, v, S) == \/ \E j \in rets : ev[j].k = k /\ ev[j].saw = v /\ ev[j].act \in {"write", "inv"} /\ ev[j].seq < S
+                               \/ \E j \in clrs, w \in writes(k) : ev[w].v = v /\ ev[w].seq < callSeq(j) /\ ev[j].seq < S
         rangeDevs(g) ==
             LET rg == r.ranges[g]
                 ks == rg.keys
